@@ -12,7 +12,7 @@ pub fn def() -> PropDef {
         predicate,
         nontrivial,
         functional: true,
-        rule: "every receiver-style built-in (size, contains, startsWith, endsWith, matches, string, double, int, uint, the ten timestamp accessors) x receivers and arguments of every value kind in both call styles x.f(args) / f(x, args), compared pairwise; every host-function signature of the harness catalogue (arity 0-9, every parameter type, This<T>, This<Option<T>>, Arguments, Identifier, Expression, with and without &FunctionContext) called with 0..arity+2 arguments of matching and mismatching kinds in both styles, with and without overriding a built-in name; the predicate recomputes what the closure must have seen (ordered log) and the outcome from the signature; non-trivial = the call reaches argument extraction (function exists); distinct = distinct case text",
+        rule: "every signature and the variadic / receiver built-ins with a failing argument or receiver in every position, both styles; every receiver-style built-in (size, contains, startsWith, endsWith, matches, string, double, int, uint, the ten timestamp accessors) x receivers and arguments of every value kind in both call styles x.f(args) / f(x, args), compared pairwise; every host-function signature of the harness catalogue (arity 0-9, every parameter type, This<T>, This<Option<T>>, Arguments, Identifier, Expression, with and without &FunctionContext) called with 0..arity+2 arguments of matching and mismatching kinds in both styles, with and without overriding a built-in name; the predicate recomputes what the closure must have seen (ordered log) and the outcome from the signature; non-trivial = the call reaches argument extraction (function exists); distinct = distinct case text",
         post: super::no_post,
         exhaustive_note: "the signature catalogue x argument-count range x a 10-kind argument alphabet is sampled (one kind choice per position per case in the quick tier)",
     }
@@ -205,6 +205,37 @@ pub fn generate(tier: Tier, rng: &mut Rng) -> Vec<Case> {
                             }
                         }
                     }
+                }
+            }
+        }
+    }
+    // an argument (or the receiver) whose evaluation fails, in every position, for every
+    // signature and both call styles: the call must fail with that error — never run on the
+    // remaining arguments (the model decides which error when several are reached)
+    for sig in host_catalogue() {
+        let arity = sig.iter().filter(|t| **t != "ftx" && **t != "args").count();
+        let mut spec = CtxSpec::default_ctx();
+        spec.fns.push(("hf".to_string(), FnSpec::Host(sig.iter().map(|s| s.to_string()).collect(), Body::Echo)));
+        for n_args in 1..=(arity + 1).max(2) {
+            for err_pos in 0..n_args {
+                for err in ["(1 / 0)", "zz", "(9223372036854775807 + 1)"] {
+                    let args: Vec<String> = (0..n_args).map(|i| if i == err_pos { err.to_string() } else { (i + 1).to_string() }).collect();
+                    for src in [format!("hf({})", args.join(", ")), format!("{}.hf({})", args[0], args[1..].join(", "))] {
+                        if let Some(mut c) = eval_case_from_src(&spec, &src) {
+                            c.tags = vec!["host-failing-argument"];
+                            out.push(c);
+                        }
+                    }
+                }
+            }
+        }
+    }
+    for f in ["max", "min", "size", "string", "contains", "startsWith"] {
+        for args in [vec!["(1 / 0)"], vec!["1", "(1 / 0)"], vec!["(1 / 0)", "1"], vec!["1", "zz", "3"], vec!["[1]", "(2 % 0)"]] {
+            for src in [format!("{f}({})", args.join(", ")), format!("{}.{f}({})", args[0], args[1..].join(", "))] {
+                if let Some(mut c) = eval_case_from_src(&default, &src) {
+                    c.tags = vec!["builtin-failing-argument"];
+                    out.push(c);
                 }
             }
         }
